@@ -219,6 +219,9 @@ func (g *Gen) makeWorld() {
 	if len(p.AltKeyStyles) > 0 && r.Chance(p.AltKeyProb) {
 		style = pick(r, p.AltKeyStyles)
 	}
+	if p.Big {
+		style = "plain" // the big-table universe is made of generated string keys
+	}
 	nc := r.Range(p.MinClients, p.MaxClients)
 	for i := 0; i < nc; i++ {
 		sdk := p.SDK
@@ -355,6 +358,9 @@ func (g *Gen) Setup() []*Cmd {
 			if g.P.Big {
 				keys := g.W.Tables[i].KeysOf(def)
 				n := g.R.Range(62, 68)
+				if n > len(keys) {
+					n = len(keys)
+				}
 				for start := 0; start < n; start += 25 {
 					b := &Cmd{ID: g.id(), Actor: "setup", Op: "BatchWrite", C: c}
 					for j := start; j < n && j < start+25; j++ {
